@@ -146,6 +146,15 @@ type Layout [NumLayoutDims]int
 // model for this layout (no irregularity chosen).
 func (l Layout) Identity() bool { return l[LOdd] == OddNone }
 
+// DataDetermined reports whether the data a reader should find is that of the
+// model although the text is irregular: a repeated line for a glyph that has
+// been listed already and a line without a name carry no data (the first
+// entry of a glyph counts, a line that names no glyph describes none) and must
+// not change what is read for the glyphs around them.
+func (l Layout) DataDetermined() bool {
+	return l[LOdd] == OddNone || l[LOdd] == OddDupGlyphLine || l[LOdd] == OddLineWithoutName
+}
+
 func (l Layout) String() string {
 	var parts []string
 	for d, v := range l {
@@ -469,12 +478,10 @@ func Write(m *Model, lay Layout) string {
 		if comments == 4 && i == 0 {
 			w.text("Comment", "between two glyphs")
 		}
-	}
-	if odd == OddDupGlyphLine && len(glyphs) > 0 {
-		glyphLine(0, glyphs[0], true)
-	}
-	if odd == OddLineWithoutName && len(glyphs) > 0 {
-		glyphLine(0, glyphs[0], true)
+		// the irregular extra line follows the first glyph (other glyphs come after it)
+		if i == 0 && (odd == OddDupGlyphLine || odd == OddLineWithoutName) {
+			glyphLine(0, glyphs[0], true)
+		}
 	}
 	w.line("EndCharMetrics")
 
